@@ -60,6 +60,32 @@ def run(ctx):
             if _l.decompress(b, format=_l.FORMAT_XZ) != d: raise ValueError('released liblzma decodes it to different data')
         except Exception as ex:
             big_viol.append(dict(why='large output is not a valid stream: %s' % ex, label=lab, file=''))
+    # encoder action histories: flushes and mid-stream filter updates (new lc/lp/pb after a sync flush, new chains
+    # after a full flush); the stream that comes out must still be a valid, truthful .xz file
+    fl = compile_driver('hook', 'drv_flush.c', 'drv_flush')
+    flines, fmeta = [], []
+    for i in range(40 if ctx.quick() else 600):
+        n = rng.choice([300, 2000, rng.randrange(200, 9000)])
+        d = (xzgen.gen_data(rng, max(1, n // 6)) * 7)[:n]
+        steps = []; left = n
+        for j in range(rng.randrange(1, 5)):
+            k = rng.randrange(1, max(2, left // 2)); left -= k
+            a = rng.choice('SSF')
+            steps.append('%s%d' % (a, k))
+            lc = rng.randrange(5); lp = rng.randrange(5 - lc); pb = rng.randrange(5)
+            if a == 'S': steps.append('Ulzma2:dict=4KiB,lc=%d,lp=%d,pb=%d' % (lc, lp, pb))
+            else: steps.append(rng.choice(['Ulzma2:dict=8KiB,lc=%d,lp=%d,pb=%d' % (lc, lp, pb), 'Udelta:dist=%d+lzma2:dict=4KiB' % rng.randrange(1, 257)]))
+        steps.append('R%d' % left)
+        sc = ';'.join(steps)
+        flines.append('flush 4 %d %d lzma2:dict=4KiB %s %s' % (rng.choice([0, 1, 4, 10]) << 8, rng.randrange(1 << 20), sc, d.hex())); fmeta.append((d, 'stream_encoder history ' + sc, 'xz'))
+    fouts, ff = run_lines(fl, flines)
+    for f in ff: ctx.violation('encoder crashed in a flush history', {'line': (f[0] or '')[:20000], 'stderr': f[1], 'kind': 'crash'})
+    hist_out = []
+    for (d, lab, kind), o in zip(fmeta, fouts):
+        if o is None: continue
+        parts = o.split('|')
+        if len(parts) == 3 and parts[0].strip() == '0' and parts[1].split() and parts[1].split()[-1].endswith(':1'):
+            hist_out.append((d, lab, parts[2].strip()))
     outs, fails = run_lines(enc, lines)
     for f in fails: ctx.violation('encoder crashed', {'line': (f[0] or '')[:20000], 'stderr': f[1], 'kind': 'crash'})
     viol = list(big_viol); olines, ometa = [], []
@@ -72,6 +98,8 @@ def run(ctx):
         b = t[1]
         if kind == 'xz-bound' and len(d) > 70000: continue
         olines.append(('alonedec 0 ' if kind == 'alone' else 'xzdec_strict 0 ') + b); ometa.append((d, lab, b))
+    for d, lab, hx in hist_out:
+        olines.append('xzdec_strict 0 ' + hx); ometa.append((d, lab, hx))
     oouts, of = run_lines(orc, olines)
     if of: raise BuildError('oracle failed %r' % (of[0],))
     distinct = set()
